@@ -186,6 +186,32 @@ def gen_case(rng):
     }
 
 
+def gen_async_last_case(rng):
+    """Coroutine guard name in tail position of a top-level and/or chain, on a machine that runs on the
+    async engine anyway (it has a coroutine action): here the library does await the guard, so the
+    expression must behave exactly like Python's (no known finding applies)."""
+    names = rng.sample(X.NAME_POOL, rng.choice([2, 3, 4]))
+    layout = {n: {"kind": rng.choice(["prop", "method", "method_kw"]), "providers": ["sm"]} for n in names}
+    layout[names[-1]]["kind"] = "amethod"
+    sync = names[:-1]
+    op = rng.choice(["and", "or"])
+    kids = []
+    for _ in range(rng.choice([1, 1, 2])):
+        n = X.T("name", val=rng.choice(sync))
+        r = rng.random()
+        kids.append(X.T("not", [n]) if r < 0.3 else (X.T("cmp", [n, X.gen_const(rng, for_cmp=True)], ops=[rng.choice(X.CMP_OPS)]) if r < 0.45 else n))
+    t = X.T(op, kids + [X.T("name", val=names[-1])])
+    style = {"p_sym": rng.choice([0.0, 0.5, 1.0]), "p_tight": rng.choice([0.0, 0.5])}
+    e = {"type": "expr", "tree": t, "lib": X.to_lib(t, rng, style), "py": X.to_python(t)}
+    cmp_used = {k_.val for n_ in t.walk() if n_.kind == "cmp" for k_ in n_.kids if k_.kind == "name"}
+    valuations = []
+    for _ in range(4):
+        valuations.append({f"{n}@sm": rng.choice(["0", "1", "2", "3"] if n in cmp_used else BOOL_CODES) for n in names})
+    conds, unlesses = ([e], []) if rng.random() < 0.7 else ([], [e])
+    return {"names": names, "layout": layout, "conds": conds, "unlesses": unlesses, "valuations": valuations,
+            "style": style, "via_any": False, "strict_async": True}
+
+
 def render(case, k):
     lay = case["layout"]
     L = [f"class M_{k}(StateMachine):", "    s0 = State(initial=True)"]
@@ -216,11 +242,14 @@ def render(case, k):
         kw.append("cond=[" + ", ".join(ent(e) for e in case["conds"]) + "]" if len(case["conds"]) != 1 else "cond=" + ent(case["conds"][0]))
     if case["unlesses"]:
         kw.append("unless=[" + ", ".join(ent(e) for e in case["unlesses"]) + "]" if len(case["unlesses"]) != 1 else "unless=" + ent(case["unlesses"][0]))
+    on = "on='fire_async'" if case.get("strict_async") else "on=lambda: 'FIRED'"
     if case.get("via_any"):
         # the same guarded self-transition declared through from_.any() (copied per source state)
-        L.append("    go = s0.from_.any(" + ", ".join(kw + ["on=lambda: 'FIRED'"]) + ")")
+        L.append("    go = s0.from_.any(" + ", ".join(kw + [on]) + ")")
     else:
-        L.append("    go = s0.to.itself(" + ", ".join(kw + ["on=lambda: 'FIRED'"]) + ")")
+        L.append("    go = s0.to.itself(" + ", ".join(kw + [on]) + ")")
+    if case.get("strict_async"):
+        L += ["    async def fire_async(self):", "        return 'FIRED'"]
     L.append("")
     L.append(f"class Mod_{k}:")
     L.append("    state = None")
@@ -335,7 +364,9 @@ def run_case(case, counters, violations, sigs, samples, src_only=False):
 
     def viol(mech, rule, detail):
         symptom = mech.split(":")[0]
-        if same_in_both:
+        if case.get("strict_async"):
+            mech = "coroutine-guard-in-tail-position-of-expression:" + symptom
+        elif same_in_both:
             mech = "same-guard-under-cond-and-unless:" + symptom
         elif same_within:
             mech = "guard-entries-with-identical-flattened-form:" + symptom
@@ -547,7 +578,9 @@ def run_shard(desc):
     from vmon.render import release_library_caches
 
     for _ in range(desc["count"]):
-        case = gen_case(rng)
+        case = gen_case(rng) if rng.random() > 0.06 else gen_async_last_case(rng)
+        if case.get("strict_async"):
+            counters["async_tail_cases"] = counters.get("async_tail_cases", 0) + 1
         run_case(case, counters, violations, sigs, samples)
         n += 1
         if n % 50 == 0:
